@@ -198,6 +198,8 @@ def a_sites(led, rid, ctx):
 
     def module_of(defpath):
         segs = defpath.lstrip("<").split("::")
+        if len(segs) > 1 and " as " not in defpath:
+            segs = segs[:-1]                  # the last segment is the function itself
         out = []
         for sg in segs:
             if sg and (sg[0].islower() or sg[0] == "_") and "<" not in sg and " " not in sg:
@@ -332,6 +334,16 @@ def a_sites(led, rid, ctx):
         ent = table.get(key)
         if ent is None:
             ent = moved_entry(key, kind, d)
+            if ent is None:
+                # the same computation (same description, same operands up to reference plumbing) is recorded
+                # for another function of this module: a copy of a recorded site after a split
+                import re as _re
+                norm = lambda k_: "|".join(_re.sub(r"[&*]", "", x) for x in _split(k_)[1:])
+                mod = module_of(_split(key)[0])
+                for k2, e2 in table.items():
+                    if "|" in k2 and module_of(_split(k2)[0]) == mod and norm(k2) == norm(key):
+                        ent = e2
+                        break
             if ent is not None:
                 seen.add(ent["key"])
                 if ent["class"] == "SAFE":
